@@ -27,6 +27,8 @@ structure St where
   data : Array (Option Bytes) := #[]
   fromFile : Array (Option Bytes) := #[]
   hash : Array (Option Bytes) := #[]
+  /-- the desegmenter bookkeeping model being folded over `seg dsg …` lines -/
+  dsg : Option Dsg.State := none
 
 def St.view (st : St) : View Bytes Bytes where
   size := st.size
@@ -122,6 +124,53 @@ def handle (st : St) (args : List String) (impl : String) : St × Verdict :=
     | some size, some bm, some root, some hlp, some other, some left, some s =>
       (st, cmpModel (showRes (fun _ => "ok") (s.validateWith realHF size bm root hlp other (left != 0))) impl)
     | _, _, _, _, _, _, _ => (st, .unknown)
+  -- desegmenter bookkeeping (`Model/Seg.lean`, namespace `Dsg`)
+  | ["dsg", "new", hb, ho, hr, hk, chunks, outs, kers] =>
+    match nat? hb, nat? ho, nat? hr, nat? hk, nat? chunks, nat? outs, nat? kers with
+    | some hb, some ho, some hr, some hk, some c, some o, some k =>
+      ({ st with dsg := some (Dsg.State.new hb ho hr hk c o k) }, cmpModel "ok" impl)
+    | _, _, _, _, _, _, _ => (st, .unknown)
+  | ["dsg", "add", tree, h, idx, acc] =>
+    match st.dsg, nat? tree, nat? h, nat? idx, nat? acc with
+    | some d, some tree, some h, some idx, some acc =>
+      -- whether the segment validates is an input (content); a segment of another height is
+      -- refused whatever its content
+      let id : Ident := ⟨h, idx⟩
+      let valid := acc != 0
+      match tree with
+      | 0 => let r := d.bitmap.receive id valid
+             ({ st with dsg := some { d with bitmap := r.1 } }, cmpModel (if r.2 then "cached" else "refused") impl)
+      | 1 => let r := d.output.receive id valid
+             ({ st with dsg := some { d with output := r.1 } }, cmpModel (if r.2 then "cached" else "refused") impl)
+      | 2 => let r := d.rproof.receive id valid
+             ({ st with dsg := some { d with rproof := r.1 } }, cmpModel (if r.2 then "cached" else "refused") impl)
+      | _ => let r := d.kernel.receive id valid
+             ({ st with dsg := some { d with kernel := r.1 } }, cmpModel (if r.2 then "cached" else "refused") impl)
+    | _, _, _, _, _ => (st, .unknown)
+  | ["dsg", "apply"] =>
+    match st.dsg, (impl.splitOn " ").map String.toNat? with
+    | some d, [some so, some sr, some sk, some c] =>
+      let d' := d.apply
+      -- kernel tree: exact.  Prunable trees: a completely pruned segment may push the hash of a
+      -- parent above its own root, so the local MMR may be further than the leaf-count model says:
+      -- never behind it, never beyond the archive size; the model continues from the observed size
+      let lo := nLeaves so
+      let lr := nLeaves sr
+      let okO := Dsg.sizeOf lo = so && d'.output.leaves ≤ lo && lo ≤ d'.output.total
+      let okR := Dsg.sizeOf lr = sr && d'.rproof.leaves ≤ lr && lr ≤ d'.rproof.total
+      let okK := Dsg.sizeOf d'.kernel.leaves = sk
+      let d'' : Dsg.State := { d' with output := { d'.output with leaves := lo }, rproof := { d'.rproof with leaves := lr } }
+      let okC := (if d''.complete then 1 else 0) = c
+      if okO && okR && okK && okC then ({ st with dsg := some d'' }, .ok)
+      else ({ st with dsg := some d'' },
+        .diff s!"output>={Dsg.sizeOf d'.output.leaves} rangeproof>={Dsg.sizeOf d'.rproof.leaves} kernel={Dsg.sizeOf d'.kernel.leaves} complete={if d''.complete then 1 else 0}")
+    | _, _ => (st, .unknown)
+  | ["dsg", "want"] =>
+    match st.dsg with
+    | some d =>
+      let toks := (d.want 15).map fun x => s!"{x.1}:{x.2.height}:{x.2.idx}"
+      (st, cmpModel ("[" ++ ",".intercalate toks ++ "]") impl)
+    | none => (st, .unknown)
   | _ => (st, .unknown)
 
 end GV.Drv.SegD
